@@ -52,6 +52,12 @@ var logOnly = map[string]bool{
 	"notify.sent": true, "notify.dropped": true,
 }
 
+// hook points that exist only for a schedule that asks for them by name (hold / window label): for every other schedule they
+// neither park nor log, so that all recorded schedules and traces stay what they were before the hook existed
+var onDemand = map[string]bool{
+	"notify.done": true,
+}
+
 // hook points inside one step of the specification (second layer): schedules derived from the specification's behaviours do not
 // stop there (schedSpec.Coarse)
 var innerLabel = map[string]bool{
@@ -61,6 +67,7 @@ var innerLabel = map[string]bool{
 
 type gate struct {
 	coarse   bool
+	demand   string // the on-demand label this episode's schedule names ("" if none)
 	mu       sync.Mutex
 	gated    bool // false: free-running (M3): hooks only log the observable events
 	active   atomic.Bool
@@ -136,6 +143,9 @@ func (g *gate) hook(label string, args ...any) {
 	}
 	if !g.gated {
 		return // free-running: internal hooks are silent
+	}
+	if onDemand[label] && g.demand != label {
+		return
 	}
 	id := goid()
 	g.mu.Lock()
